@@ -21,12 +21,10 @@ pub mod h1s {
       macro m1($p0: ident, $p1: ident, $p2: expr) { ((r3(v0, 3, $p1), if ($p0.clone() < 3)) | r0($p0, $p1)), if ($p2 < 2) }
       macro m2($p0: expr) { r7($p0, $p0, $p0) }
       macro m3($p0: expr) { r6(3, $p0), r7($p0, $p0, $p0) }
-      r6(v3, v2) <-- r0(v0, v1), m0!(v2), m0!(v3);
-      m3!(std::cmp::min(std::cmp::min(v1.clone(), 2), 6)), r8((v1.clone() + 1)) <-- r4(v0, _), (m0!(v1) | r2(v1)), if (v1.clone() < 5);
-      r6(v0, v0) <-- r2(v0), m0!(v0);
-      r7(v0, v0, v0) <-- m0!(v0);
-      m3!(std::cmp::min(std::cmp::max(v0.clone(), 1), 6)), r7(v2, v1, v0) <-- r7(v0, v0, v0) if (v0.clone() == 3) let v1 = std::cmp::min(std::cmp::max(v0.clone(), 3), 6), m1!(v0, v2, v0.clone() + 1);
-      r7(v1, v1, v0) <-- r8(v0), m1!(v0, v1, v0.clone() + 0), m1!(v1, v2, v0.clone() + v1.clone());
+      m2!(std::cmp::min(std::cmp::max(v1.clone(), 0), 6)) <-- r2(v0), m0!(v1);
+      r7(v2, 0, v0) <-- r6(v0, v1), (m0!(v2) | r0(v4, v2)), m0!(v2);
+      r8(v0) <-- r6(v0, v1), (m0!(v2) | r6(v4, v2));
+      r8((v1.clone() + 1)) <-- r5(v0) if (v0.clone() <= 1), m1!(v0, v1, std::cmp::max(v0.clone(), 3)), m1!(v0, v2, std::cmp::max(v1.clone(), 3)), if (v1.clone() < 5);
       r5(v0) <-- r3(_, v0, 3);
       m2!(1);
    }
@@ -72,22 +70,20 @@ pub mod h5s {
       relation r1(i64, Option<i64>);
       relation r2(i64);
       relation r3(i64, i64, i64);
-      relation r4(i64);
-      relation r5(i64, i64);
-      relation r6(i64, i64);
-      relation r7(i64, i64);
-      macro m0($p0: ident) { r2($p0), r6($p0, ($p0.clone() + 2)) }
-      macro m1($p0: ident) { r5($p0, _), r3(v0, _, std::cmp::max($p0.clone(), 2)), if ($p0.clone() <= v0.clone()) }
-      macro m2($p0: ident, $p1: ident) { (r3(v0, $p1, $p0), r5(v1, v2) | r3(v0, $p0, $p1), r7(_, v3)), if ($p0.clone() == 4) }
-      macro m3($p0: expr) { r6(1, $p0), r6($p0, 2) }
-      macro m4($p0: expr, $p1: ident) { r5(2, $p1), r5(3, $p0), m3!(($p0 + 0)) }
-      m4!(std::cmp::min(std::cmp::max(v1.clone(), 0), 6), v0), r5(v1, v0) <-- r2(v0) if (v0.clone() < 5), m0!(v0), m0!(v1);
-      m3!(std::cmp::min((v0.clone() + 1), 6)) <-- m1!(v0);
-      r7(v0, v1) <-- r6(v0, _), m0!(v1), m0!(v2);
-      m4!(std::cmp::min(std::cmp::max(v2.clone(), 3), 6), v2) <-- r7(v0, 3), m2!(v1, v0), r2(v2);
-      m4!(std::cmp::min((v1.clone() + v1.clone()), 6), v2), r6(v2, v0) <-- r3(v0, v0, v1) if (v1.clone() <= 1), m1!(v2);
-      r7(v1, 3) <-- r2(v0) if (v0.clone() == 3), (m1!(v1) | r3(v2, (v0.clone() + 2), v1));
-      m3!(0);
+      relation r4(i64, i64);
+      relation r5(i64);
+      relation r6(i64, i64, i64);
+      relation r7(i64, i64, i64);
+      relation r8(i64, i64);
+      macro m0($p0: ident, $p1: ident) { (r1($p0, v0), if ($p0.clone() < 0), r3(v1, $p1, v2) | r1($p0, v0)), if ($p1.clone() <= 0) }
+      macro m1($p0: ident, $p1: ident, $p2: expr) { r0(0, $p1), r1($p1, v0) }
+      macro m2($p0: ident, $p1: ident) { r4($p0, $p1), if ($p1.clone() <= 1) }
+      macro m3($p0: expr, $p1: ident) { r7($p0, $p1, $p0), r7($p0, 0, $p0) }
+      macro m4($p0: expr, $p1: ident) { r8($p1, $p1), r8($p1, $p0) }
+      r7(v1, (v1.clone() + 1), v1) <-- r0(v0, (v0.clone() + 0)), m0!(v0, v0), r5(v1), if (v1.clone() < 5);
+      r7(v0, 3, v0) <-- m2!(v0, v0);
+      m3!(std::cmp::min(std::cmp::min(v0.clone(), 1), 6), v2), r6((v1.clone() + 1), (v1.clone() + 1), v0) <-- r7(v0, std::cmp::min(v0.clone(), 1), v0) if (v0.clone() != 0), m0!(v1, v0), m0!(v2, v0), if (v1.clone() < 5), if (v1.clone() < 5);
+      r6(1, v1, v3) <-- r5(v0), (m0!(v1, v0) | r0(v1, v1)), m0!(v3, v0);
    }
    pub struct Inst { p: Prog, pool: Option<ascent::rayon::ThreadPool> }
    pub fn make(pool: Option<usize>) -> Box<dyn Driver> {
@@ -102,10 +98,11 @@ pub mod h5s {
          1 => { let v: Vec<(i64,Option<i64>,)> = parse_rows(rows)?; if append { self.p.r1.extend(v) } else { self.p.r1 = v } },
          2 => { let v: Vec<(i64,)> = parse_rows(rows)?; if append { self.p.r2.extend(v) } else { self.p.r2 = v } },
          3 => { let v: Vec<(i64,i64,i64,)> = parse_rows(rows)?; if append { self.p.r3.extend(v) } else { self.p.r3 = v } },
-         4 => { let v: Vec<(i64,)> = parse_rows(rows)?; if append { self.p.r4.extend(v) } else { self.p.r4 = v } },
-         5 => { let v: Vec<(i64,i64,)> = parse_rows(rows)?; if append { self.p.r5.extend(v) } else { self.p.r5 = v } },
-         6 => { let v: Vec<(i64,i64,)> = parse_rows(rows)?; if append { self.p.r6.extend(v) } else { self.p.r6 = v } },
-         7 => { let v: Vec<(i64,i64,)> = parse_rows(rows)?; if append { self.p.r7.extend(v) } else { self.p.r7 = v } },
+         4 => { let v: Vec<(i64,i64,)> = parse_rows(rows)?; if append { self.p.r4.extend(v) } else { self.p.r4 = v } },
+         5 => { let v: Vec<(i64,)> = parse_rows(rows)?; if append { self.p.r5.extend(v) } else { self.p.r5 = v } },
+         6 => { let v: Vec<(i64,i64,i64,)> = parse_rows(rows)?; if append { self.p.r6.extend(v) } else { self.p.r6 = v } },
+         7 => { let v: Vec<(i64,i64,i64,)> = parse_rows(rows)?; if append { self.p.r7.extend(v) } else { self.p.r7 = v } },
+         8 => { let v: Vec<(i64,i64,)> = parse_rows(rows)?; if append { self.p.r8.extend(v) } else { self.p.r8 = v } },
             _ => return None,
          }
          Some(())
@@ -113,7 +110,7 @@ pub mod h5s {
       fn run(&mut self) { match &self.pool { Some(pl) => { let p = &mut self.p; pl.install(|| p.run()) }, None => self.p.run() } }
       fn run_here(&mut self) { self.p.run() }
       fn run_timeout(&mut self, k: usize) -> Option<bool> { let _ = k; None }
-      fn dump(&self) -> String { vec![dump_rel(0, self.p.r0.iter().map(Row::render).collect()), dump_rel(1, self.p.r1.iter().map(Row::render).collect()), dump_rel(2, self.p.r2.iter().map(Row::render).collect()), dump_rel(3, self.p.r3.iter().map(Row::render).collect()), dump_rel(4, self.p.r4.iter().map(Row::render).collect()), dump_rel(5, self.p.r5.iter().map(Row::render).collect()), dump_rel(6, self.p.r6.iter().map(Row::render).collect()), dump_rel(7, self.p.r7.iter().map(Row::render).collect())].join(" | ") }
+      fn dump(&self) -> String { vec![dump_rel(0, self.p.r0.iter().map(Row::render).collect()), dump_rel(1, self.p.r1.iter().map(Row::render).collect()), dump_rel(2, self.p.r2.iter().map(Row::render).collect()), dump_rel(3, self.p.r3.iter().map(Row::render).collect()), dump_rel(4, self.p.r4.iter().map(Row::render).collect()), dump_rel(5, self.p.r5.iter().map(Row::render).collect()), dump_rel(6, self.p.r6.iter().map(Row::render).collect()), dump_rel(7, self.p.r7.iter().map(Row::render).collect()), dump_rel(8, self.p.r8.iter().map(Row::render).collect())].join(" | ") }
       fn iters(&self) -> String { format!("iters {}", self.p.scc_iters.iter().map(|x| x.to_string()).collect::<Vec<_>>().join(" ")) }
    }
 }
@@ -130,22 +127,19 @@ pub mod h9s {
       relation r1(i64, Option<i64>);
       relation r2(i64);
       relation r3(i64, i64, i64);
-      relation r4(i64);
+      relation r4(i64, i64);
       relation r5(i64, i64);
       relation r6(i64);
-      relation r7(i64, i64);
+      relation r7(i64, Option<i64>);
       relation r8(i64, i64);
-      macro m0($p0: ident) { r1($p0, ?Some(v0)), !r3($p0.clone(), _, _), if ($p0.clone() == 2) }
-      macro m1($p0: ident, $p1: ident, $p2: expr) { r0($p1, $p0), r3(v0, std::cmp::min(v0.clone(), 2), v1), m0!(v2), if (v2.clone() < 5) }
-      macro m2($p0: ident, $p1: expr) { r1($p0, v0), r1($p0, v0), m1!($p0, $p0, std::cmp::max($p1, 3)), if ($p0.clone() == 3) }
-      macro m3($p0: expr) { r8($p0, 3) }
-      r6(v1) <-- r2(v0), m1!(v0, v1, std::cmp::max(v0.clone(), 0)), m1!(v1, v2, v1.clone() + v0.clone());
-      r6(v2) <-- r7(v0, 1), m0!(v1), m0!(v2);
-      m3!(std::cmp::min(std::cmp::max(v0.clone(), 0), 6)) <-- r2(_), (m0!(v0) | r0(v2, v0));
-      m3!(std::cmp::min((v1.clone() + 0), 6)), r6(1) <-- r7(2, v0), m2!(v1, v0.clone() + 1);
-      r7(v0, 0) <-- r2(v0) if (v0.clone() < 2) let v1 = std::cmp::min(std::cmp::max(v0.clone(), 2), 6), m1!(v1, v0, std::cmp::min(v0.clone(), 2)), r5(v3, v2);
-      r7(v0, (v0.clone() + 1)) <-- r4(v0), m0!(v0), if (v0.clone() < 5);
-      r5(1, v0) <-- r2(v0);
+      macro m0($p0: ident) { r3(v0, std::cmp::max(v0.clone(), 3), $p0), r4(v1, 0), if ($p0.clone() < 1), let v2 = std::cmp::min(std::cmp::min($p0.clone(), 1), 6), if (v2.clone() == v1.clone()) }
+      macro m1($p0: ident, $p1: ident) { r3(v0, $p0, $p1), m0!(v1) }
+      macro m2($p0: ident) { r7(2, Some($p0.clone())), r7($p0, Some($p0.clone())) }
+      macro m3($p0: expr) { r7($p0, Some(3)), r8($p0, $p0) }
+      r8(v2, v0) <-- r5(v0, 1) if (v0.clone() != 3), m1!(v1, v2), m1!(v3, v2);
+      m2!(v0) <-- r8(v0, v1), (m0!(v2) | r7(v2, ?None)), m0!(v0);
+      m3!(std::cmp::min((v1.clone() + v1.clone()), 6)) <-- r5(v0, v0) if (v0.clone() == 3), m0!(v1);
+      r7((v2.clone() + 1), Some(v1.clone())) <-- r8(_, v0) if (v0.clone() <= 1), m1!(v1, v2), if (v2.clone() < 5);
       m3!(2);
    }
    pub struct Inst { p: Prog, pool: Option<ascent::rayon::ThreadPool> }
@@ -161,10 +155,10 @@ pub mod h9s {
          1 => { let v: Vec<(i64,Option<i64>,)> = parse_rows(rows)?; if append { self.p.r1.extend(v) } else { self.p.r1 = v } },
          2 => { let v: Vec<(i64,)> = parse_rows(rows)?; if append { self.p.r2.extend(v) } else { self.p.r2 = v } },
          3 => { let v: Vec<(i64,i64,i64,)> = parse_rows(rows)?; if append { self.p.r3.extend(v) } else { self.p.r3 = v } },
-         4 => { let v: Vec<(i64,)> = parse_rows(rows)?; if append { self.p.r4.extend(v) } else { self.p.r4 = v } },
+         4 => { let v: Vec<(i64,i64,)> = parse_rows(rows)?; if append { self.p.r4.extend(v) } else { self.p.r4 = v } },
          5 => { let v: Vec<(i64,i64,)> = parse_rows(rows)?; if append { self.p.r5.extend(v) } else { self.p.r5 = v } },
          6 => { let v: Vec<(i64,)> = parse_rows(rows)?; if append { self.p.r6.extend(v) } else { self.p.r6 = v } },
-         7 => { let v: Vec<(i64,i64,)> = parse_rows(rows)?; if append { self.p.r7.extend(v) } else { self.p.r7 = v } },
+         7 => { let v: Vec<(i64,Option<i64>,)> = parse_rows(rows)?; if append { self.p.r7.extend(v) } else { self.p.r7 = v } },
          8 => { let v: Vec<(i64,i64,)> = parse_rows(rows)?; if append { self.p.r8.extend(v) } else { self.p.r8 = v } },
             _ => return None,
          }
@@ -179,7 +173,61 @@ pub mod h9s {
 }
 
 #[allow(unused, non_snake_case, clippy::all)]
-pub mod a1s {
+pub mod h13s {
+   use ascent::*;
+   use ascent::aggregators::*;
+   use ascent::lattice::{Dual, set::Set};
+   use crate::common::*;
+   ascent! {
+      pub struct Prog;
+      relation r0(i64, i64);
+      relation r1(i64, Option<i64>);
+      relation r2(i64);
+      relation r3(i64, i64, i64);
+      relation r4(i64, Option<i64>);
+      relation r5(i64, i64, i64);
+      relation r6(i64);
+      macro m0($p0: ident, $p1: ident) { r3(0, $p0, $p1), r2($p0), if ($p1.clone() == 5) }
+      macro m1($p0: ident) { r0(v0, $p0), m0!(v1, v0), if (v1.clone() <= 3) }
+      macro m2($p0: expr, $p1: ident) { r6($p0) }
+      macro m3($p0: ident) { r6($p0), r6($p0), m2!(($p0.clone() + 0), $p0) }
+      r5(v1, v0, v1) <-- r2(v0) if (v0.clone() < 4), (m0!(v1, v0) | r6(v1));
+      m3!(v0) <-- r1(3, ?Some(v0)) if (v0.clone() == 1), m1!(v1), m1!(v1);
+      r6((v0.clone() + 1)) <-- m1!(v0), if (v0.clone() < 5);
+      r6(v1) <-- r3(v0, 0, v1), m1!(v2);
+      m2!(std::cmp::min(std::cmp::max(v0.clone(), 1), 6), v1), r5(v3, 0, v0) <-- r6(v0), (m1!(v1) | r4(v1, _) if (v0.clone() <= 4)), m1!(v3);
+      r4((v0.clone() + 1), Some(v0.clone())) <-- r2(v0), if (v0.clone() < 5);
+   }
+   pub struct Inst { p: Prog, pool: Option<ascent::rayon::ThreadPool> }
+   pub fn make(pool: Option<usize>) -> Box<dyn Driver> {
+      let pool = pool.map(|n| ascent::rayon::ThreadPoolBuilder::new().num_threads(n).build().unwrap());
+      let p = match &pool { Some(pl) => pl.install(|| Default::default()), None => Default::default() };
+      Box::new(Inst { p, pool })
+   }
+   impl Driver for Inst {
+      fn load(&mut self, rel: usize, rows: &[Sexp], append: bool) -> Option<()> {
+         match rel {
+         0 => { let v: Vec<(i64,i64,)> = parse_rows(rows)?; if append { self.p.r0.extend(v) } else { self.p.r0 = v } },
+         1 => { let v: Vec<(i64,Option<i64>,)> = parse_rows(rows)?; if append { self.p.r1.extend(v) } else { self.p.r1 = v } },
+         2 => { let v: Vec<(i64,)> = parse_rows(rows)?; if append { self.p.r2.extend(v) } else { self.p.r2 = v } },
+         3 => { let v: Vec<(i64,i64,i64,)> = parse_rows(rows)?; if append { self.p.r3.extend(v) } else { self.p.r3 = v } },
+         4 => { let v: Vec<(i64,Option<i64>,)> = parse_rows(rows)?; if append { self.p.r4.extend(v) } else { self.p.r4 = v } },
+         5 => { let v: Vec<(i64,i64,i64,)> = parse_rows(rows)?; if append { self.p.r5.extend(v) } else { self.p.r5 = v } },
+         6 => { let v: Vec<(i64,)> = parse_rows(rows)?; if append { self.p.r6.extend(v) } else { self.p.r6 = v } },
+            _ => return None,
+         }
+         Some(())
+      }
+      fn run(&mut self) { match &self.pool { Some(pl) => { let p = &mut self.p; pl.install(|| p.run()) }, None => self.p.run() } }
+      fn run_here(&mut self) { self.p.run() }
+      fn run_timeout(&mut self, k: usize) -> Option<bool> { let _ = k; None }
+      fn dump(&self) -> String { vec![dump_rel(0, self.p.r0.iter().map(Row::render).collect()), dump_rel(1, self.p.r1.iter().map(Row::render).collect()), dump_rel(2, self.p.r2.iter().map(Row::render).collect()), dump_rel(3, self.p.r3.iter().map(Row::render).collect()), dump_rel(4, self.p.r4.iter().map(Row::render).collect()), dump_rel(5, self.p.r5.iter().map(Row::render).collect()), dump_rel(6, self.p.r6.iter().map(Row::render).collect())].join(" | ") }
+      fn iters(&self) -> String { format!("iters {}", self.p.scc_iters.iter().map(|x| x.to_string()).collect::<Vec<_>>().join(" ")) }
+   }
+}
+
+#[allow(unused, non_snake_case, clippy::all)]
+pub mod a3s {
    use ascent::*;
    use ascent::aggregators::*;
    use ascent::lattice::{Dual, set::Set};
@@ -190,8 +238,9 @@ pub mod a1s {
       relation r1(i64);
       relation r2(i64, i64);
       relation r3(i64);
-      macro m0($p0: ident) { r0(v0, $p0) if (1 < $p0.clone()) }
-      r2(v0, v1) <-- r1(v0), m0!(v1);
+      macro m0($p0: ident) { r0(v0, $p0) if (v0.clone() != 0) }
+      macro m1($p0: ident) { r1(v1), m0!($p0) }
+      r2(v0, v2) <-- r1(v0), m1!(v2);
       r3(v0) <-- r2(v0, _);
    }
    pub struct Inst { p: Prog, pool: Option<ascent::rayon::ThreadPool> }
@@ -220,7 +269,7 @@ pub mod a1s {
 }
 
 #[allow(unused, non_snake_case, clippy::all)]
-pub mod e1s {
+pub mod e3s {
    use ascent::*;
    use ascent::aggregators::*;
    use ascent::lattice::{Dual, set::Set};
@@ -231,8 +280,8 @@ pub mod e1s {
       relation r1(i64);
       relation r2(i64, i64);
       relation r3(i64);
-      macro m0($p0: ident, $p1: expr) { r0(v0, $p0), if ((6 - $p1) < 8) }
-      r2(v0, v1) <-- r1(v0), m0!(v1, v0.clone() + 2);
+      macro m0($p0: ident, $p1: expr) { r0(v0, $p0), if ((v0.clone() * $p1) < 4) }
+      r2(v0, v1) <-- r1(v0), m0!(v1, (v0.clone() + 2));
       r3(v0) <-- r2(v0, _);
    }
    pub struct Inst { p: Prog, pool: Option<ascent::rayon::ThreadPool> }
@@ -261,7 +310,7 @@ pub mod e1s {
 }
 
 #[allow(unused, non_snake_case, clippy::all)]
-pub mod o0s {
+pub mod o2s {
    use ascent::*;
    use ascent::aggregators::*;
    use ascent::lattice::{Dual, set::Set};
@@ -272,7 +321,7 @@ pub mod o0s {
       relation r1(i64);
       relation r2(i64, i64);
       relation r3(i64);
-      macro m0($p0: ident) { r0($p0, ?None) }
+      macro m0($p0: ident) { r0($p0, ?Some(v0)), if (v0.clone() <= 3) }
       r3(v0) <-- r1(v0), m0!(v0);
       r2(v0, v0) <-- r3(v0);
    }
@@ -302,5 +351,5 @@ pub mod o0s {
 }
 
 fn main() {
-   common::main_loop(&[("h1s", h1s::make as common::Factory), ("h5s", h5s::make as common::Factory), ("h9s", h9s::make as common::Factory), ("a1s", a1s::make as common::Factory), ("e1s", e1s::make as common::Factory), ("o0s", o0s::make as common::Factory)]);
+   common::main_loop(&[("h1s", h1s::make as common::Factory), ("h5s", h5s::make as common::Factory), ("h9s", h9s::make as common::Factory), ("h13s", h13s::make as common::Factory), ("a3s", a3s::make as common::Factory), ("e3s", e3s::make as common::Factory), ("o2s", o2s::make as common::Factory)]);
 }
